@@ -522,6 +522,15 @@ let case_pages r k =
     let expect = if kind = "plain" then c_val payload else if ptr_is_compressed p then c_val out else "-" in
     let m = match loadTOASTTable [] (zz rel) { vis = file; tail = ct } with
       | Ok st -> c_valres (readValue_m st { vis = enc_ptr p; tail = [] }) | Panic -> "panic" in
+    if rint r 3 = 0 then begin
+      (* the relation is loaded TWICE into one reader (re-read): the later load replaces the earlier one, it is not added to
+         it (seeded change C08-9) *)
+      let m2 = match loadTOASTTable [] (zz rel) { vis = file; tail = ct } with
+        | Ok st -> (match loadTOASTTable st (zz rel) { vis = file; tail = ct } with
+            | Ok st2 -> c_valres (readValue_m st2 { vis = enc_ptr p; tail = [] }) | Panic -> "panic")
+        | Panic -> "panic" in
+      emit ~fn:"TableReadValueReload" ~tag:("e2e_reload_" ^ kind) ~s:expect ~m:m2 [ zs (zz rel); hexf file; hexf ct; hexf (enc_ptr p) ]
+    end else
     emit ~fn:"TableReadValue" ~tag:("e2e_" ^ kind) ~s:expect ~m [ zs (zz rel); hexf file; hexf ct; hexf (enc_ptr p) ]
   | _ ->
     (* damaged relation files: model vs implementation only (short rows, empty file, random page) *)
